@@ -136,6 +136,7 @@ Section Lift.
   Proof.
     unfold build_catalog. intros H.
     destruct (collect_tags empty_catalog forest) as [c0| | |] eqn:T; try discriminate.
+    destruct (dup_type_error [] forest); [discriminate|].
     destruct (type_without_body forest); [discriminate|].
     destruct (collect_paths fuel forest [] None); [|discriminate].
     destruct (missed_path_errors forest); [discriminate|].
